@@ -13,7 +13,8 @@ import sys
 import traceback
 
 FIXED_POINT = ("fix_paragraphs", "fix_nesting", "remove_breaking_returns")
-CALL_CAP = 4_000_000          # deterministic absolute cap per pass (normal: < 2*10^4 calls)
+CALL_CAP = 4_000_000          # deterministic cap per pass: CALL_CAP + CALL_CAP_PER_NODE * nodes profiled calls
+CALL_CAP_PER_NODE = 40_000    # (normal: < 100 calls per node; fix_nesting's deepcopies reach 2*10^4 per node)
 WATCHDOG_S = 30
 
 
@@ -208,7 +209,7 @@ def record(raw, lang="en", title="Verif", doc_id=0, lossless=False):
     tc = TreeCleaner(tree, save_reports=True)
     for name in TreeCleaner.cleaner_methods:
         nrep = len(tc.get_reports())
-        status, errkey, calls = run_pass(tc, name, tree)
+        status, errkey, calls = run_pass(tc, name, tree, cap=CALL_CAP + CALL_CAP_PER_NODE * prev["n"])
         stable, why = True, ""
         if name in FIXED_POINT and status == "ok":
             stable, why = is_stable(name, tree)
@@ -235,3 +236,271 @@ def write_batch(traces, path):
     with open(path, "w") as f:
         json.dump([for_tlc(t) for t in traces], f, separators=(",", ":"))
     return os.path.getsize(path)
+
+
+# ====================================================================== shared pipeline
+import concurrent.futures
+import multiprocessing
+import random
+
+from . import tlc
+from . import wikidoc as W
+from .common import VERIF, chunks
+
+DOC_CFG = """SPECIFICATION Spec
+CONSTANTS
+  MaxProd = %(maxprod)d
+  MaxWords = %(maxwords)d
+  MaxList = 3
+  MaxTables = 2
+  OrdinaryLists = %(ordinary)s
+  Variants = %(variants)s
+  Palette = %(palette)s
+  Free = %(free)s
+  NTargets = 4
+  NAttrs = %(nattrs)d
+  NSnips = %(nsnips)d
+  NLex = %(nlex)d
+  MaxLine = %(maxline)d
+  MinOut = %(minout)d
+  EmitDocs = TRUE
+INVARIANTS WordsOnce DenOrder PathsOK CurPathOK DoneClosed PosOK EmitDoc
+CHECK_DEADLOCK FALSE
+"""
+
+TOKENS_CFG = """SPECIFICATION Spec
+CONSTANTS Alphabet = "markup"
+ MaxLen = %(k)d
+ MaxNest = 40
+ EmitFrom = %(k)d
+INVARIANTS TypeOK NestBounded EmitSeq
+CHECK_DEADLOCK FALSE
+"""
+
+TRACE_CFG = """SPECIFICATION TraceSpec
+CONSTANTS
+  CheckC05 = %(c05)s
+  CheckC06 = %(c06)s
+  CheckC07 = %(c07)s
+  KnownRaised = {%(known)s}
+INVARIANTS Complete
+CHECK_DEADLOCK TRUE
+"""
+
+
+def doc_cfg(maxprod, maxwords, palette=False, free=False, variants=True, maxline=12, minout=60, ordinary=False):
+    return DOC_CFG % dict(maxprod=maxprod, maxwords=maxwords, palette=str(palette).upper(), free=str(free).upper(),
+                          variants=str(variants).upper(), maxline=maxline, minout=minout, ordinary=str(ordinary).upper(),
+                          nattrs=len(W.ATTRS) if palette else 0, nsnips=len(W.SNIPS) if palette else 0,
+                          nlex=len(W.LEXEMES) if free else 0)
+
+
+def generate(ctx, scale=1.0):
+    """Inputs for the cleaner: documents of WikiDoc.tla (clean grammar, attribute palette, free
+    lexemes) and lexeme strings of WikiTokens.tla.  -> list of dicts (raw, lossless, kind, doc)"""
+    quick = ctx.tier == "quick"
+    per = lambda n: max(1, int(n * scale) // ctx.ncpu)             # noqa: E731  (-simulate num is per worker)
+    plans = [
+        # name, cfg, traces per worker, depth
+        ("clean", doc_cfg(40, 30), per(700 if quick else 7000), 45),
+        ("cleanlong", doc_cfg(70, 60, maxline=9, minout=120), per(250 if quick else 2500), 75),
+        ("palette", doc_cfg(40, 30, palette=True), per(900 if quick else 9000), 45),
+        ("palettelong", doc_cfg(70, 60, palette=True, maxline=9, minout=120), per(300 if quick else 3000), 75),
+        ("free", doc_cfg(30, 20, palette=True, free=True, minout=40), per(400 if quick else 4000), 35),
+    ]
+    inputs, seen = [], set()
+    gen_stats = {}
+    import time as _time
+    t0 = _time.time()
+    for k, (name, cfg, num, depth) in enumerate(plans):
+        res = tlc.run(ctx, "WikiDoc", cfg, name="WikiDoc_" + name, simulate=num, depth=depth,
+                      seed=ctx.seed * 16 + k + 1, timeout=1500, heap="4g")
+        if not res.ok:
+            ctx.machinery("generator spec WikiDoc violates its own invariant (%s %s) in plan %s\n%s"
+                          % (res.kind, res.name, name, res.out[-1500:]))
+        n0 = len(inputs)
+        for d in res.emitted:
+            raw = W.concretise(d)
+            if raw in seen:
+                continue
+            seen.add(raw)
+            inputs.append({"raw": raw, "kind": name, "doc": d,
+                           "lossless": bool(d["flags"]["clean"] and d["flags"]["lossless"] and not d["flags"]["mal"])})
+        gen_stats[name] = len(inputs) - n0
+    # all tiny documents of the clean grammar
+    res = tlc.run(ctx, "WikiDoc", doc_cfg(7 if quick else 8, 3, variants=False, maxline=100, minout=0, ordinary=True).replace(
+        "MaxTables = 2", "MaxTables = 1"), name="WikiDoc_tiny", timeout=1500, heap="4g")
+    if not res.ok:
+        ctx.machinery("generator spec WikiDoc violates its own invariant (%s %s) in the BFS plan" % (res.kind, res.name))
+    tiny = sorted(res.emitted, key=lambda d: json.dumps(d["out"], sort_keys=True))
+    random.Random(ctx.seed).shuffle(tiny)
+    n0 = len(inputs)
+    for d in tiny[:int((400 if quick else 6000) * scale)]:
+        raw = W.concretise(d)
+        if raw not in seen:
+            seen.add(raw)
+            inputs.append({"raw": raw, "kind": "tiny", "doc": d, "lossless": bool(d["flags"]["lossless"])})
+    gen_stats["tiny"] = len(inputs) - n0
+    # malformed strings from C01's input space (builder-tokens' WikiTokens.tla), when available
+    try:
+        from . import wikitext as WT
+        if os.path.exists(os.path.join(VERIF, "spec", "WikiTokens.tla")):
+            n0 = len(inputs)
+            for j, k in enumerate((12, 30)):
+                r = tlc.run(ctx, "WikiTokens", TOKENS_CFG % {"k": k}, name="WikiTokens_%d" % k, deadlock=False,
+                            simulate=max(1, int((250 if quick else 2500) * scale)), depth=k + 1, seed=ctx.seed * 4 + j + 1,
+                            workers=1, timeout=900, heap="4g")
+                if not r.ok:
+                    raise RuntimeError("WikiTokens run failed: %s %s" % (r.kind, r.name))
+                for e in r.emitted:
+                    if "s" not in e:
+                        continue
+                    raw = WT.concretise(e["s"])
+                    if "\0" in raw or raw in seen:
+                        continue
+                    try:
+                        raw.encode("utf-8")
+                    except UnicodeEncodeError:
+                        continue
+                    seen.add(raw)
+                    inputs.append({"raw": raw, "kind": "tokens", "doc": None, "lossless": False})
+            gen_stats["tokens"] = len(inputs) - n0
+    except Exception as e:                                           # noqa: BLE001  (optional source)
+        ctx.note("WikiTokens strings not used (%s); malformed inputs come from WikiDoc's free lexemes only" % str(e)[:120])
+    gen_stats["seconds"] = round(_time.time() - t0, 1)
+    for i, inp in enumerate(inputs):
+        inp["id"] = i + 1
+        inp["lang"] = W.LANGS[(i + ctx.seed) % len(W.LANGS)]
+    return inputs, gen_stats
+
+
+def _record_worker(chunk):
+    import logging
+    logging.disable(logging.CRITICAL)           # advtree logs every unknown tag
+    out = []
+    for inp in chunk:
+        tr = record(inp["raw"], inp["lang"], doc_id=inp["id"], lossless=inp["lossless"])
+        tr["kind"] = inp["kind"]
+        out.append(tr)
+    return out
+
+
+def record_all(ctx, inputs):
+    import io
+    pool = multiprocessing.get_context("fork").Pool(ctx.ncpu)
+    traces = []
+    try:
+        order = list(inputs)
+        random.Random(ctx.seed).shuffle(order)
+        for res in pool.imap_unordered(_record_worker, [c for c in chunks(order, ctx.ncpu * 6) if c]):
+            traces.extend(res)
+    finally:
+        pool.close()
+        pool.join()
+    traces.sort(key=lambda t: t["id"])
+    return traces
+
+
+def known_raised(prop="C06"):
+    path = os.path.join(VERIF, "known_findings.json")
+    try:
+        with open(path) as f:
+            ents = json.load(f).get("findings", [])
+    except (OSError, ValueError):
+        return []
+    return [e["key"] for e in ents if e.get("property") == prop and e.get("status") == "open" and e["key"].startswith("pass=")]
+
+
+class Validation:
+    def __init__(self):
+        self.rejects, self.known = [], []
+        self.states = self.transitions = 0
+        self.expected_states = 0
+        self.traces = 0
+
+
+def validate(ctx, traces, prop, name="batch"):
+    """TLC validates every trace against CleanerTrace.tla with the clause set of `prop`.
+    The batch is sharded over single-worker JVMs (TLC's BFS does not scale on these narrow state
+    graphs; measured: 1 worker 14 s, 8 workers 21 s for the same batch)."""
+    usable = [t for t in traces if t["snaps"]]
+    val = Validation()
+    val.traces = len(usable)
+    if not usable:
+        return val
+    known = known_raised("C06") if prop == "C06" else []
+    cfg = TRACE_CFG % dict(c05=str(prop == "C05").upper(), c06=str(prop == "C06").upper(), c07=str(prop == "C07").upper(),
+                           known=", ".join('"%s"' % k.replace('"', "'") for k in known))
+    shards = [c for c in chunks(usable, ctx.ncpu) if c]
+    d = os.path.join(ctx.scratch, "traces-" + name)
+    os.makedirs(d, exist_ok=True)
+
+    def one(i):
+        path = os.path.join(d, "shard%d.json" % i)
+        write_batch(shards[i], path)
+        return tlc.run(ctx, "CleanerTrace", cfg, name="CleanerTrace_%s_%d" % (name, i), workers=1, env={"TRACE_FILE": path},
+                       timeout=2400, heap="3g", deadlock=True)
+
+    with concurrent.futures.ThreadPoolExecutor(max_workers=len(shards)) as ex:
+        results = list(ex.map(one, range(len(shards))))
+    for i, res in enumerate(results):
+        if not res.ok:
+            ctx.machinery("CleanerTrace: TLC reported %s %s on shard %d — a step outside Accept/KnownDeviation/Reject/Done "
+                          "means broken machinery\n%s" % (res.kind, res.name, i, res.out[-1500:]))
+        val.states += res.distinct
+        val.transitions += res.generated
+        by_id = {t["id"]: t for t in shards[i]}
+        cut = {}
+        for e in res.emitted:
+            e["trace"] = by_id[e["id"]]
+            if e["kind"] == "reject":
+                val.rejects.append(e)
+                cut[e["id"]] = e["l"]
+            else:
+                val.known.append(e)
+        # cross-check: l runs 0..len for an accepted trace, 0..l_rejected for a rejected one
+        exp = sum((cut[t["id"]] if t["id"] in cut else len(t["snaps"])) + 1 for t in shards[i])
+        val.expected_states += exp
+        if res.distinct != exp:
+            ctx.machinery("CleanerTrace shard %d: TLC found %d distinct states, the batch has %d — traces were not fully consumed"
+                          % (i, res.distinct, exp))
+    return val
+
+
+def first_diff(a, b):
+    """diagnostic only: where do two word lists differ"""
+    wa, wb = [x["w"] for x in a], [x["w"] for x in b]
+    lost = [w for w in wa if wa.count(w) > wb.count(w)]
+    gained = [w for w in wb if wb.count(w) > wa.count(w)]
+    if lost or gained:
+        first = next((x for x in a if x["w"] in lost), None)
+        return {"lost": lost[:6], "gained": gained[:6], "first_lost_place": first}
+    for x, y in zip(a, b):
+        if (x["w"], x["sec"], x["li"], x["ref"]) != (y["w"], y["sec"], y["li"], y["ref"]):
+            return {"moved": x["w"], "from": [x["sec"], x["li"], x["ref"]], "to": [y["sec"], y["li"], y["ref"]]}
+    return {}
+
+
+def trees_around(trace, l):
+    """(tree before, tree after) the pass of snapshot l (1-based)"""
+    before = None
+    for s in trace["snaps"][:l - 1]:
+        if not s["same"]:
+            before = s
+    s = trace["snaps"][l - 1]
+    return before, (before if s["same"] else s)
+
+
+def summarize(traces):
+    """evidence shared by the three checks: which passes fired / changed the tree / raised"""
+    fired, changed, status = {}, {}, {}
+    for t in traces:
+        for p in set(t["fired"]):
+            fired[p] = fired.get(p, 0) + 1
+        for p in set(t["changed"]):
+            changed[p] = changed.get(p, 0) + 1
+        for s in t["snaps"]:
+            if s["status"] != "ok":
+                k = s["errkey"]
+                status[k] = status.get(k, 0) + 1
+    return fired, changed, status
